@@ -339,6 +339,69 @@ func checkC02(c *Check) {
 	c.Rule("R10", "shared with C10 (R4)", "a leaf enters the shortcut table only if it and every ancestor is static (every non-static style, match-all included, answers false): the shortcut hands out no bind values", 2)
 	c.Share("C10", []string{"R4"}, 2)
 
+	// ---- R11 a bind name is not reused inside one route (else one capture overwrites the other)
+	c.Rule("R11", "shared with C08 (R4)", "a bind name cannot occur twice along one route, inside one segment included: two captures under one name would hand the handler the text of the other bind", 6)
+	c.Share("C08", []string{"R4"}, 6)
+
+	// ---- R12 captured values are not dropped on the way out
+	c.Rule("R12", "E5 who-may-write", "while serving, entries of the Params being built are deleted only by code that does not itself re-derive bind names from the route syntax (BindIdent / BindParameter.Ident): the names a cleanup keeps must come from the nodes' own bind reports (a second reading of the syntax that forgets the later binds of a list deletes captured values)", 1)
+	{
+		n := 0
+		cset := canonFuncSet()
+		isCanonFn := func(f *ssa.Function) bool {
+			if f == nil || f.Pkg == nil || f.Parent() != nil {
+				return f != nil && f.Parent() != nil && false
+			}
+			short := pkgShort[f.Pkg.Pkg.Path()]
+			_, ok := cset[short+"|"+recvStr(f.Signature)+"|"+f.Name()]
+			return ok
+		}
+		for _, fn := range p.REQList() {
+			var dels []ssa.Instruction
+			readsSyntax := false
+			allInstrs(fn, func(in ssa.Instruction) {
+				if ci, ok := in.(ssa.CallInstruction); ok && callName(ci.Common()) == "builtin.delete" {
+					if nt, isN := ci.Common().Args[0].Type().(*types.Named); isN && nt.Obj().Name() == "Params" {
+						dels = append(dels, in)
+					}
+				}
+			})
+			if len(dels) == 0 {
+				continue
+			}
+			// the function and the helpers it calls that are not part of the canonical tree (new code)
+			scope := []*ssa.Function{fn}
+			for _, g := range p.ReachFrom(fn) {
+				if g != fn && !isCanonFn(g) && g.Parent() == nil {
+					scope = append(scope, g)
+				}
+			}
+			for _, g := range scope {
+				allInstrs(g, func(in ssa.Instruction) {
+					if fa, ok := in.(*ssa.FieldAddr); ok {
+						if f := fieldOf(fa); f != nil && (f.Name() == "BindIdent" || (f.Name() == "Ident" && namedName(derefT(fa.X.Type())) == "BindParameter")) {
+							readsSyntax = true
+						}
+					}
+					if fv, ok := in.(*ssa.Field); ok {
+						if st, isSt := fv.X.Type().Underlying().(*types.Struct); isSt {
+							if f := st.Field(fv.Field); f.Name() == "BindIdent" || (f.Name() == "Ident" && namedName(fv.X.Type()) == "BindParameter") {
+								readsSyntax = true
+							}
+						}
+					}
+				})
+			}
+			for _, d := range dels {
+				n++
+				c.Cond(!readsSyntax, p.FuncKey(fn)+":params-cleanup", p.Pos(d.Pos()), "entries are deleted by code that takes the names to keep from the nodes' bind reports", "captured values are deleted from the Params by code that re-derives bind names from the route syntax: a bind it does not derive (e.g. the later binds of a comma list) is dropped although the matched route defines it")
+			}
+		}
+		if n == 0 {
+			c.OK("route:no-params-cleanup", "internal/route", "no entry of the Params is deleted while serving", 1)
+		}
+	}
+
 	// ---- R6 `route` parameter on both dispatch paths
 	c.Rule("R6", "E6 sibling agreement", "on both dispatch paths the params handed to the handler hold \"route\" = Route() of the very leaf whose Handler() is invoked", 2)
 	if sh := p.Meth("flamego", "router", "ServeHTTP"); sh != nil {
